@@ -229,12 +229,14 @@ pub fn check_result(op: &Op, out: &Out<OpRes>, before: &SysModel, after: &SysMod
                 }
             }
         }
-        Op::Clear(..) | Op::RClear(..) | Op::Reopen | Op::RReopen => match out {
+        // A clear on a (sparse) replica may return Err after it has logged and applied the clear:
+        // widening the hole in the data store needs byte offsets of neighbours whose tree nodes
+        // the replica never received. No listed property promises more, so only a panic is
+        // rejected (checked above) and the model applies the clear either way.
+        Op::RClear(..) => None,
+        Op::Clear(..) | Op::Reopen | Op::RReopen => match out {
             Out::Ok(OpRes::Unit) => None,
-            _ => bad(
-                if matches!(op, Op::Clear(..) | Op::RClear(..)) { "clear-result" } else { "open-fails" },
-                "Ok".into(),
-            ),
+            _ => bad(if matches!(op, Op::Clear(..)) { "clear-result" } else { "open-fails" }, "Ok".into()),
         },
         Op::MakeReadOnly => match out {
             Out::Ok(OpRes::Bool(b)) if *b == before.w.writable => None,
@@ -491,7 +493,7 @@ impl<'a> E1<'a> {
 }
 
 fn expected_err(op: &Op, after: &SysModel) -> bool {
-    matches!(op, Op::Append(_) | Op::Batch(_) | Op::BatchN(_)) && !after.w.writable
+    (matches!(op, Op::Append(_) | Op::Batch(_) | Op::BatchN(_)) && !after.w.writable) || matches!(op, Op::RClear(..))
 }
 
 /// Re-run one history outside the explorer (used by replays); calls the visitor on the last op.
